@@ -70,7 +70,7 @@ type judge struct {
 func (j *judge) note(reason, example string) {
 	j.e.Bump(reason)
 	j.mu.Lock()
-	if _, ok := j.notes[reason]; !ok {
+	if old, ok := j.notes[reason]; !ok || example < old {
 		j.notes[reason] = example
 	}
 	j.mu.Unlock()
@@ -228,7 +228,7 @@ func (j *judge) check(u *bldrun.LUnit, b ast.Builder, def any, calls []call, cla
 	return ok
 }
 
-const maxValuesPerArg = 14
+const maxValuesPerArg = 40
 
 func (j *judge) builder(u *bldrun.LUnit, b ast.Builder, thorough bool) {
 	if _, ok := u.BuilderTerm(b); !ok {
@@ -257,7 +257,6 @@ func (j *judge) builder(u *bldrun.LUnit, b ast.Builder, thorough bool) {
 		def = u.DefaultOf(b.For.Name)
 		j.e.Bump("default-builder-fails-validation")
 	}
-	type first struct{ c call }
 	var firsts [][]call // per option: up to two valid calls
 	for _, opt := range b.Options {
 		args, err := u.OptionArgs(b, opt)
@@ -294,6 +293,7 @@ func (j *judge) builder(u *bldrun.LUnit, b ast.Builder, thorough bool) {
 				vals := u.C.Schema.Values(a.Term, 2)
 				if len(vals) > maxValuesPerArg {
 					vals = vals[:maxValuesPerArg]
+					j.e.Bump("alphabet-capped")
 				}
 				for _, v := range vals {
 					alpha[i] = append(alpha[i], v)
@@ -586,7 +586,8 @@ func main() {
 		"transitions":                   j.trans,
 		"traces_validated_against_impl": j.trans,
 		"samples":                       j.samples.L,
-		"exhaustive":                    true,
+		"exhaustive":                    eng.Counts["alphabet-capped"] == 0,
+		"alphabet_cap":                  fmt.Sprintf("%d values per argument; hit %d times", maxValuesPerArg, eng.Counts["alphabet-capped"]),
 		"abstract_schemas":              len(prep.Schemas),
 		"cases":                         len(prep.Cases),
 		"options_exercised":             j.optionsSeen,
